@@ -154,8 +154,11 @@ def _set(unit, acc, values):
     return u
 
 
-def shrink(mod, unit, target_cls, budget_runs=400, budget_s=30.0, tier="quick"):
-    """Greedy tape minimisation keeping the same (property, oracle) class."""
+def shrink(mod, unit, target_cls, budget_runs=400, budget_s=30.0, tier="quick",
+           fingerprint=None):
+    """Greedy tape minimisation keeping the same (property, oracle) class and, when given,
+    the same fingerprint (so that a violation cannot slide into a different - possibly
+    already listed - way of failing the same oracle while it is being minimised)."""
     t0 = time.time()
     runs = [0]
 
@@ -168,7 +171,7 @@ def shrink(mod, unit, target_cls, budget_runs=400, budget_s=30.0, tier="quick"):
         except Exception:  # noqa: BLE001
             return None
         for v in vs:
-            if v.cls() == target_cls:
+            if v.cls() == target_cls and (fingerprint is None or v.fingerprint == fingerprint):
                 return v, info["unit"]
         return None
 
@@ -307,7 +310,8 @@ def fresh_process_check(prop, unit, tier, want_cls):
         "import sys, json; sys.path.insert(0, %r); from checks import runner; runner.setup_path();"
         "mod = runner.load(%r); unit = json.load(sys.stdin);"
         "vs, info = mod.run_unit(unit=unit, tier=%r);"
-        "print(json.dumps({'digest': info.get('digest'), 'cls': [list(v.cls()) for v in vs]}))"
+        "print(json.dumps({'digest': info.get('digest'), 'cls': [list(v.cls()) for v in vs],"
+        " 'fps': [[list(v.cls()), v.fingerprint] for v in vs]}))"
     ) % (ROOT, prop, tier)
     env = dict(os.environ, PYTHONHASHSEED="0")
     try:
@@ -387,7 +391,8 @@ def run_batch(prop, tier, n_units=None, workers=None, verif_seed=None):
         if match_known(vj, known) is not None or len(violations_out) >= 6:
             small, small_v, nruns = f["unit"], None, 0  # listed already / enough reported
         else:
-            small, small_v, nruns = shrink(mod, f["unit"], target, tier=tier)
+            small, small_v, nruns = shrink(mod, f["unit"], target, tier=tier,
+                                           fingerprint=vj["fingerprint"])
         final_v = small_v.to_json() if small_v is not None else vj
         unit = small if small_v is not None else f["unit"]
         # the minimised tape must reproduce in a fresh interpreter
